@@ -1002,13 +1002,19 @@ func cacheOp(call *ssa.Call) (cacheAccess, bool) {
 	g := call.Common().StaticCallee()
 	kind, ki, li := keyedCacheMethod(g)
 	if kind == "" || ki >= len(a) {
-		return cacheAccess{}, false
+		return delegatingLookup(call, g)
 	}
-	kc, ok := ssau.ResolveCell(a[ki]).(*ssa.Call)
+	kv := ssau.ResolveCell(a[ki])
+	res := 0
+	if ex, isEx := kv.(*ssa.Extract); isEx {
+		// the key handed back by a lookup that made it: results, key, found := Lookup(q, o)
+		kv, res = ex.Tuple, ex.Index
+	}
+	kc, ok := kv.(*ssa.Call)
 	if !ok {
 		return cacheAccess{}, false
 	}
-	qi, oi := keyMaker(kc.Common().StaticCallee(), 0)
+	qi, oi := keyMakerAt(kc.Common().StaticCallee(), res, 0)
 	if qi < 0 || qi >= len(kc.Common().Args) || oi >= len(kc.Common().Args) {
 		return cacheAccess{}, false
 	}
@@ -1070,10 +1076,53 @@ func srSliceAny(t types.Type) bool {
 	return strings.HasSuffix(n, ".SearchResult")
 }
 
-// keyMaker: k is a method of SearchCache every return of which is
+// delegatingLookup: g is a method of SearchCache (other than Get/Put) that
+// looks the entry up itself — it contains exactly one cache read, whose query
+// and options are g's own parameters — so a call of g is a read for the
+// corresponding arguments (results, key, found := Lookup(query, options)).
+func delegatingLookup(call *ssa.Call, g *ssa.Function) (cacheAccess, bool) {
+	if g == nil || g.Blocks == nil || g.Signature.Recv() == nil || ssau.NamedOf(g.Signature.Recv().Type()) != cachePkg+".SearchCache" {
+		return cacheAccess{}, false
+	}
+	if n := g.Name(); n == "Get" || n == "Put" {
+		return cacheAccess{}, false
+	}
+	var inner []cacheAccess
+	ssau.ForEachInstr(g, false, func(in ssa.Instruction) {
+		c2, ok := in.(*ssa.Call)
+		if !ok || c2.Common().StaticCallee() == g {
+			return
+		}
+		if k2, _, _ := keyedCacheMethod(c2.Common().StaticCallee()); k2 == "" && ssau.CallName(c2) != scGetName {
+			return // only the direct forms inside: no unbounded nesting
+		}
+		if acc, ok := cacheOp(c2); ok {
+			inner = append(inner, acc)
+		}
+	})
+	if len(inner) != 1 || inner[0].kind != "get" {
+		return cacheAccess{}, false
+	}
+	qp, ok1 := inner[0].query.(*ssa.Parameter)
+	op, ok2 := inner[0].options.(*ssa.Parameter)
+	if !ok1 || !ok2 {
+		return cacheAccess{}, false
+	}
+	a := call.Common().Args
+	qi, oi := paramIdx(g, qp), paramIdx(g, op)
+	if qi < 0 || oi < 0 || qi >= len(a) || oi >= len(a) {
+		return cacheAccess{}, false
+	}
+	return cacheAccess{kind: "get", query: a[qi], options: a[oi]}, true
+}
+
+// keyMaker: result 0 of keyMakerAt.
+func keyMaker(k *ssa.Function, d int) (qi, oi int) { return keyMakerAt(k, 0, d) }
+
+// keyMakerAt: k is a method of SearchCache every return of which (result #res) is
 // generateCacheKey(q, o) of two of its own parameters (or of such a method);
 // the indices of those parameters (-1 when k is not a key maker).
-func keyMaker(k *ssa.Function, d int) (qi, oi int) {
+func keyMakerAt(k *ssa.Function, res, d int) (qi, oi int) {
 	if k == nil || k.Blocks == nil || d > 2 || k.Signature.Recv() == nil || ssau.NamedOf(k.Signature.Recv().Type()) != cachePkg+".SearchCache" {
 		return -1, -1
 	}
@@ -1082,7 +1131,7 @@ func keyMaker(k *ssa.Function, d int) (qi, oi int) {
 	}
 	qi, oi = -1, -1
 	for _, ret := range ssau.ReturnsOf(k) {
-		call, ok := ssau.ResultValue(ret, 0).(*ssa.Call)
+		call, ok := ssau.ResolveCell(ssau.ResultValue(ret, res)).(*ssa.Call)
 		if !ok {
 			return -1, -1
 		}
